@@ -179,3 +179,17 @@ Fixpoint run_guards (l : list Z) : list Z :=
        else (if large_ok (malloc_route a) then 1 else 0)) :: run_guards tl
   | _ => []
   end.
+
+(* tbb::cache_aligned_resource::do_allocate (include/oneapi/tbb/cache_aligned_allocator.h): the request handed to the upstream memory
+   resource is correct_size(bytes) + max(alignment, cache line size), computed in size_t.  [guard] = the representability test is present. *)
+Definition car_request (guard : bool) (bytes al cls : Z) : option Z :=
+  let a := Z.max al cls in
+  let size := Z.max bytes 8 in          (* correct_size: at least one pointer, for the header word *)
+  if guard && (W64 - 1 - a <? size) then None else Some (w64 (size + a)).
+(* flat interface: cls, then (bytes al)* -> per pair the upstream request, -1 = refused before the upstream resource is asked *)
+Fixpoint run_car_pairs (cls : Z) (l : list Z) : list Z :=
+  match l with
+  | b :: a :: tl => (match car_request true b a cls with Some s => s | None => -1 end) :: run_car_pairs cls tl
+  | _ => []
+  end.
+Definition run_car (l : list Z) : list Z := match l with cls :: tl => run_car_pairs cls tl | [] => [] end.
